@@ -24,30 +24,30 @@ Definition ek_decode_gen (orig : bool) (old : ekey) (data : list Z) : ekey * out
   if n <? 95 then (old, Err 1, true) else                                 (* :187-191 *)
   ml_bind (cd_idx data 0) old false (fun kdt =>                           (* :193 *)
   ml_bind (cd_rd16 data 1) old false (fun info =>                         (* :195 *)
-  ml_bind (cd_rd16 data 3) old false (fun klen =>                         (* :209 *)
-  ml_bind (sl_rd64 data 5) old false (fun rc =>                           (* :210 *)
-  ml_bind (cd_slc data 13 45) old false (fun nonce =>                     (* :212 *)
+  ml_bind (cd_rd16 data 3) old false (fun klen =>                         (* :208 *)
+  ml_bind (sl_rd64 data 5) old false (fun rc =>                           (* :209 *)
+  ml_bind (cd_slc data 13 45) old false (fun nonce =>                     (* :211 *)
   ml_bind (cd_slc data 45 61) old false (fun iv =>
   ml_bind (sl_rd64 data 61) old false (fun rsc =>
   ml_bind (sl_rd64 data 69) old false (fun id =>
-  ml_bind (cd_slc data 77 93) old false (fun mic =>                       (* :216 *)
-  ml_bind (cd_rd16 data 93) old false (fun kdl =>                         (* :218 *)
+  ml_bind (cd_slc data 77 93) old false (fun mic =>                       (* :215 *)
+  ml_bind (cd_rd16 data 93) old false (fun kdl =>                         (* :217 *)
   let enc := ek_bit info 12 in
   let mk := fun c p ekd => mkEk c p kdt (info mod 8) ((info / 8) mod 2) ((info / 16) mod 4)            (* :196-198 *)
                   (ek_bit info 6) (ek_bit info 7) (ek_bit info 8) (ek_bit info 9) (ek_bit info 10) (ek_bit info 11) enc (ek_bit info 13)   (* :199-206 *)
                   klen rc nonce iv rsc id mic kdl ekd in
   let l1 := mk (ek_contents old) (ek_payload old) (ek_ekd old) in
-  let total := 95 + kdl in                                                (* :220 *)
-  if n <? total then (l1, Err 2, true) else                               (* :221-225 *)
+  let total := 95 + kdl in                                                (* :219 *)
+  if n <? total then (l1, Err 2, true) else                               (* :220-224 *)
   if enc then
-    ml_bind (cd_slc data 95 total) l1 false (fun ekd =>                   (* :228 *)
-    ml_bind (cd_slc data 0 total) l1 false (fun c =>                      (* :229-232 *)
+    ml_bind (cd_slc data 95 total) l1 false (fun ekd =>                   (* :227 *)
+    ml_bind (cd_slc data 0 total) l1 false (fun c =>                      (* :228-231 *)
     ml_bind (cd_slc data total n) l1 false (fun p =>
     (mk c p ekd, Ok tt, false))))
   else
-    ml_bind (cd_slc data 0 95) l1 false (fun c =>                         (* :235-238 *)
+    ml_bind (cd_slc data 0 95) l1 false (fun c =>                         (* :236-239 *)
     ml_bind (cd_slc data 95 n) l1 false (fun p =>
-    (mk c p (if orig then ek_ekd old else []), Ok tt, false))))))))))))). (* :234 repaired *)
+    (mk c p (if orig then ek_ekd old else []), Ok tt, false))))))))))))). (* :235 repaired *)
 
 Definition ek_decode_into := ek_decode_gen false.
 Definition ek_decode_orig := ek_decode_gen true.
@@ -72,7 +72,7 @@ Definition ek_hdr (l : ekey) : list Z :=
   sl_put64 (ek_rsc l) ++ sl_put64 (ek_id l) ++ sl_pad 16 (ek_mic l) ++ cd_put16 (ek_kdl l).
 
 Definition ek_serialize (l : ekey) (payload : list Z) (fixl csum : bool) (junk : list Z) : outcome (list Z) * ekey :=
-  match sl_region (95 + zlen (ek_ekd l)) junk (ek_hdr l ++ ek_ekd l) with   (* :248, :256-301 *)
+  match sl_region (95 + zlen (ek_ekd l)) junk (ek_hdr l ++ ek_ekd l) with   (* :249, :257-302 *)
   | Ok b => (Ok (b ++ payload), l) | Err c => (Err c, l) | Panic s => (Panic s, l)
   end.
 
